@@ -167,7 +167,7 @@ def serve(frames: int, K: int, path: str, per_gen: int, timeout, conn_gen: bool 
                 if c == 0:
                     loop.step()
                 elif c == 1:
-                    tr.feed(S.int(1, 3, f"k{i}"))
+                    tr.feed(S.int(1, 4, f"k{i}"))
                 else:
                     loop.advance(3)
                     loop.step()
